@@ -180,6 +180,10 @@ class CTMCUniformGrid(CTMCGrid):
         :param nb_of_points: number of points for each axis
         :param dimension: grid dimension
         """
+        if nb_of_points < 2:
+            raise ValueError(
+                "expected nb_of_points >= 2 (the states -h and +h next to the origin)"
+            )
         axis_right = np.array([k * h for k in range(1, nb_of_points // 2 + 1)])
         axis_left = np.array([-x for x in axis_right[::-1]])
         axis = np.concatenate((axis_left, [0.0], axis_right))
